@@ -26,9 +26,10 @@ type C09Case struct {
 	Deep   int    `json:"deep,omitempty"` // stack family: what sits at the deepest stack position (0 variable, 1 zero-operand call, 2 unary call, 3 if, 4 constant, 5 two-leaf operator)
 	Mask   int    `json:"mask"`
 	Events int    `json:"events"`
-	Reach  bool   `json:"reach"`          // binding reaches the deepest point (else short-circuits early)
-	Ifs    int    `json:"ifs,omitempty"`  // nodes family: this many leaves are replaced by an if (5 nodes each, one of them the end-if marker)
-	Bins   int    `json:"bins,omitempty"` // nodes family: this many leaves are replaced by a two-leaf operator (3 nodes each, inlined under FastEvaluation)
+	Reach  bool   `json:"reach"`            // binding reaches the deepest point (else short-circuits early)
+	Ifs    int    `json:"ifs,omitempty"`    // nodes family: this many leaves are replaced by an if (5 nodes each, one of them the end-if marker)
+	Bins   int    `json:"bins,omitempty"`   // nodes family: this many leaves are replaced by a two-leaf operator (3 nodes each, inlined under FastEvaluation)
+	IfBins int    `json:"ifbins,omitempty"` // nodes family: this many leaves are replaced by an if whose condition and branches are two-leaf operators (11 nodes each, three of them inlined under FastEvaluation)
 	// Consts (arity family): 0 every operand a variable, 1 every operand a constant (neutral for the
 	// operator), 2 constants followed by one variable, 3 one variable followed by constants
 	Consts int `json:"consts,omitempty"`
@@ -110,11 +111,15 @@ func sized(op, alt string, n int) *m.Node {
 // decorate replaces the first ifs+bins leaves (depth-first) by an if over leaves (+4 nodes)
 // or by a two-leaf operator (+2 nodes), keeping the static type of the leaf. The caller must
 // have left room: the tree needs at least ifs+bins leaves.
-func decorate(tree *m.Node, ifs, bins int) {
+func decorate(tree *m.Node, ifs, bins int, ifbinsOpt ...int) {
+	ifbins := 0
+	if len(ifbinsOpt) > 0 {
+		ifbins = ifbinsOpt[0]
+	}
 	var rec func(n *m.Node)
 	rec = func(n *m.Node) {
 		for i, k := range n.Kids {
-			if ifs+bins == 0 {
+			if ifs+bins+ifbins == 0 {
 				return
 			}
 			if k.Kind != m.KVar {
@@ -123,6 +128,12 @@ func decorate(tree *m.Node, ifs, bins int) {
 			}
 			isBool := k.Name[0] == 'p'
 			switch {
+			case ifbins > 0 && isBool:
+				n.Kids[i] = m.If(m.Op("=", m.Var("p1"), m.Var("p2")), m.Op("=", k, m.Var("p2")), m.Op("=", k.Clone(), m.Var("p3")))
+				ifbins--
+			case ifbins > 0:
+				n.Kids[i] = m.If(m.Op("=", m.Var("p1"), m.Var("p2")), m.Op("*", k, m.Var("q1")), m.Op("*", k.Clone(), m.Var("q1")))
+				ifbins--
 			case ifs > 0:
 				n.Kids[i] = m.If(m.Var("p1"), k, k.Clone())
 				ifs--
@@ -136,7 +147,7 @@ func decorate(tree *m.Node, ifs, bins int) {
 		}
 	}
 	rec(tree)
-	if ifs+bins != 0 {
+	if ifs+bins+ifbins != 0 {
 		panic("decorate: not enough leaves")
 	}
 }
@@ -348,12 +359,12 @@ func (c C09Case) tree() *m.Node {
 		}
 		return n
 	case "nodes":
-		base := c.N - 4*c.Ifs - 2*c.Bins
+		base := c.N - 4*c.Ifs - 2*c.Bins - 10*c.IfBins
 		if base < 3 {
 			return sized(c.Op, c.Inner, c.N)
 		}
 		tree := sized(c.Op, c.Inner, base)
-		decorate(tree, c.Ifs, c.Bins)
+		decorate(tree, c.Ifs, c.Bins, c.IfBins)
 		return tree
 	case "deep":
 		// right-nested three-operand calls: every level keeps two values waiting, so the
@@ -476,6 +487,9 @@ func genC09(t *rapid.T) C09Case {
 			c.Bins = rapid.SampledFrom([]int{1, 2, 3, 100, 1000}).Draw(t, "bins")
 		case 3:
 			c.Ifs, c.Bins = rapid.IntRange(1, 50).Draw(t, "ifs"), rapid.IntRange(1, 50).Draw(t, "bins")
+		}
+		if rapid.IntRange(0, 2).Draw(t, "ifbinsdecor") == 0 {
+			c.IfBins = rapid.SampledFrom([]int{1, 2, 20, 300, 600}).Draw(t, "ifbins")
 		}
 	default:
 		c.Kind, c.Shape, c.N = "stack", rapid.IntRange(0, 6).Draw(t, "shape"), rapid.IntRange(1, 24).Draw(t, "need")
@@ -727,6 +741,13 @@ func sweepC09(tier string, shard, shards int, emit func(C09Case)) {
 							}
 							send(C09Case{Kind: "nodes", Op: pair[0], Inner: pair[1], N: b + d, Ifs: dec[0], Bins: dec[1], Mask: mask, Events: ev, Reach: true})
 						}
+						// ... and with two-leaf operators as condition and branches of ifs
+						for _, ib := range []int{1, 20, 500} {
+							if !thorough && ib == 20 {
+								continue
+							}
+							send(C09Case{Kind: "nodes", Op: pair[0], Inner: pair[1], N: b + d, IfBins: ib, Mask: mask, Events: ev, Reach: true})
+						}
 					}
 				}
 			}
@@ -736,7 +757,7 @@ func sweepC09(tier string, shard, shards int, emit func(C09Case)) {
 
 var propC09 = Prop[C09Case]{
 	ID:    "C09",
-	Rule:  "constructed boundary programs: (arity) every n-ary operator and alias with 120..135 operands - variables, neutral constants, constants then a variable, a variable then constants; (flatten) and/or whose operand count crosses 127 only after ReduceNesting merges 2..6 inner operators, same and different operator kinds; (nodes) programs of exactly N nodes for N within +-3 of 16383, 16384 and 32767 (and 8192, 10922) built from <=127-ary layers of + or alternating and/or over variables; (stack) six nesting shapes (right-nested arithmetic, alternating and/or, wide-then-deep, if chains, comparison under and, deep-first) for every operand-stack requirement 1..24; x optimization subsets x {no events, ReportEvent, Debug} x bindings that reach the deepest point / short-circuit at once; programs compiled without events sometimes get a channel attached to Expr.EventChan all the same. Oracle: Compile returns exactly one of program/error, never panics; it rejects iff the harness's own count on the optimized shape exceeds a limit (operands > 127, nodes > 32767, nodes incl. event nodes > 32767); compiled programs have exactly the counted number of nodes (hook), a stack bound >= the slots the evaluation needs (hook), and Eval and TryEval return R's value. Non-trivial = a size parameter within +-2 of 127 / 16383 / 32767 or a stack requirement within +-2 of 8 / 16; distinct by parameters. The sweep part is an exhaustive grid (reduced in quick)",
+	Rule:  "constructed boundary programs: (arity) every n-ary operator and alias with 120..135 operands - variables, neutral constants, constants then a variable, a variable then constants; (flatten) and/or whose operand count crosses 127 only after ReduceNesting merges 2..6 inner operators, same and different operator kinds; (nodes; also with leaves replaced by ifs, by two-leaf operators, and by ifs over two-leaf operators) programs of exactly N nodes for N within +-3 of 16383, 16384 and 32767 (and 8192, 10922) built from <=127-ary layers of + or alternating and/or over variables; (stack) six nesting shapes (right-nested arithmetic, alternating and/or, wide-then-deep, if chains, comparison under and, deep-first) for every operand-stack requirement 1..24; x optimization subsets x {no events, ReportEvent, Debug} x bindings that reach the deepest point / short-circuit at once; programs compiled without events sometimes get a channel attached to Expr.EventChan all the same. Oracle: Compile returns exactly one of program/error, never panics; it rejects iff the harness's own count on the optimized shape exceeds a limit (operands > 127, nodes > 32767, nodes incl. event nodes > 32767); compiled programs have exactly the counted number of nodes (hook), a stack bound >= the slots the evaluation needs (hook), and Eval and TryEval return R's value. Non-trivial = a size parameter within +-2 of 127 / 16383 / 32767 or a stack requirement within +-2 of 8 / 16; distinct by parameters. The sweep part is an exhaustive grid (reduced in quick)",
 	Gen:   genC09,
 	Check: checkC09,
 	Sweep: sweepC09,
